@@ -78,6 +78,21 @@ let () =
         | Some (diffs, n) -> Printf.sprintf "%d %s" (ni n) (String.concat "," (List.map (fun ((o, m), p) -> Printf.sprintf "%d:%d:%d" (ni o) (ni m) (ni p)) diffs))
         | None -> "none")
     | _ -> "?args");
+  (* shared-object identifiers per page: model of calculateLinearizationData's last loop on the users found in the file vs the file's table *)
+  register "linshared" (fun args -> match args with
+    | [path] -> (match lin_shared_tie (bytes_of_string (H_file.read_file path)) with
+        | Some (diffs, n) -> Printf.sprintf "%d %s" (ni n)
+                               (String.concat ";" (List.map (fun ((i, m), f) -> Printf.sprintf "%d:%s:%s" (ni i) (String.concat "," (List.map jn m)) (String.concat "," (List.map jn f))) diffs))
+        | None -> "none")
+    | _ -> "?args");
+  (* identifiers of page i from an explicit object-to-users map: "uo i obj=users;obj=users;..." (users as for classify) *)
+  register "sharedids" (fun args -> match args with
+    | [uo; i; m] ->
+      let um = if m = "-" then [] else List.map (fun e -> match String.split_on_char '=' e with
+          | [o; us] -> (n_of_int (int_of_string o), List.map user_of (String.split_on_char ',' us))
+          | _ -> failwith "entry") (String.split_on_char ';' m) in
+      String.concat "," (List.map jn (lsi_page_ids (uo = "1") um (n_of_int (int_of_string i))))
+    | _ -> "?args");
   register "classify" (fun args -> match args with
     | [uo; us] ->
       let users = if us = "-" then [] else List.map user_of (String.split_on_char ',' us) in
